@@ -1502,8 +1502,36 @@ fn c18_separator_overflow(dir: PathBuf) -> ScenFut<'static> {
     })
 }
 
+fn c19_refused_open_truncates_lock(dir: PathBuf) -> ScenFut<'static> {
+    Box::pin(async move {
+        let cfg = base_cfg();
+        let owner = cfg.open(&dir).map_err(|e| e.to_string())?;
+        let before = std::fs::read(dir.join("LOCK")).map_err(|e| e.to_string())?;
+        let second = cfg.open(&dir);
+        let after = std::fs::read(dir.join("LOCK")).map_err(|e| e.to_string())?;
+        let refused = second.is_err();
+        if let Ok(t) = second {
+            close(t).await;
+        }
+        close(owner).await;
+        if !refused {
+            return Err("a second open of a directory held by a live store succeeded".into());
+        }
+        if before != after {
+            return Err(format!("a refused open changed the owner's LOCK file: {:?} -> {:?}", String::from_utf8_lossy(&before), String::from_utf8_lossy(&after)));
+        }
+        Ok(())
+    })
+}
+
 pub fn all() -> Vec<Scenario> {
     vec![
+        Scenario {
+            id: "C19-refused-open-truncates-lock",
+            property: "C19",
+            title: "second open of a directory held by a live store",
+            run: c19_refused_open_truncates_lock,
+        },
         Scenario {
             id: "C18-separator-overflow-on-leaf-redistribution",
             property: "C18",
